@@ -37,7 +37,12 @@ class _Timeout(BaseException):
     pass
 
 
+_FIRED = False  # did the timer of the current job expire (even if the exception got lost or replaced)?
+
+
 def _alarm(signum, frame):
+    global _FIRED
+    _FIRED = True
     raise _Timeout()
 
 
@@ -45,6 +50,9 @@ def _set_alarm(seconds: float) -> None:
     """(Re)arm the per-job timer.  It repeats every 2 s after the first expiry: an exception raised
     from the handler is lost when it lands in a context that ignores exceptions (C-level
     isinstance checks, __del__), so it has to be raised again until it gets through."""
+    global _FIRED
+    if seconds:
+        _FIRED = False
     signal.setitimer(signal.ITIMER_REAL, seconds, 2.0 if seconds else 0.0)
 
 
@@ -161,6 +169,20 @@ def _validate_isolated(pkg) -> int | None:
 
 
 def lifecycle(defn, own_file, ranges, validate=True, mode="compile", isolate=False) -> tuple[list, dict]:
+    """Lifecycle of one definition.  If the job timer expired at any point, whatever was observed is
+    unreliable (the timeout exception may have been swallowed, or replaced by a context manager's
+    __exit__): the outcome is then a timeout, which the caller repeats alone with a large budget."""
+    try:
+        events, info = _lifecycle(defn, own_file, ranges, validate, mode, isolate)
+    except _Timeout:
+        events, info = [], {}
+    if _FIRED:
+        _set_alarm(0)
+        return [ev("check", "timeout", cls="Timeout")], {}
+    return events, info
+
+
+def _lifecycle(defn, own_file, ranges, validate=True, mode="compile", isolate=False) -> tuple[list, dict]:
     from guppylang_internals.engine import DEF_STORE
     from guppylang_internals.error import GuppyError
 
@@ -276,7 +298,7 @@ def run_program(job: dict) -> dict:
         for name, d, mode in ents:
             _set_alarm(job.get("timeout", 60))
             events, info = lifecycle(d, own_file, ranges, validate=job.get("validate", True), mode=mode,
-                                     isolate=job.get("isolate", False))
+                                     isolate=job.get("isolate", True))
             res["traces"].append(events)
             res["names"].append(name)
             res["modes"].append(mode)
@@ -357,8 +379,8 @@ def map_programs(jobs, procs: int = 16, chunk: int = 30):
                     results[i] = r
             except (EOFError, OSError):
                 p.join(5)
-                if len(idx) > 1 or not jobs[idx[0]].get("isolate"):
-                    for i in idx:  # find the culprit; this time with the validator in its own process
+                if len(idx) > 1:
+                    for i in idx:  # find the culprit
                         jobs[i] = dict(jobs[i], isolate=True)
                         todo.append([i])
                 else:
